@@ -133,6 +133,7 @@ def main(argv=None):
     harness_errors = []
     funcs = {}
     twin_results = 0
+    seen_known = set()
 
     POL = [{'VERIF_DATEDELTA_POLICY': 'rollover'}, {'VERIF_DATEDELTA_POLICY': 'clip'}]
 
@@ -214,6 +215,9 @@ def main(argv=None):
                 if ob.finding:
                     if ob.finding in known and known[ob.finding].get('status') == 'open':
                         n_known += 1
+                        if ob.finding in seen_known:
+                            continue
+                        seen_known.add(ob.finding)
                         lines.append('KNOWN-FINDING: property=%s %s [%s] witness=%s' % (pid, known[ob.finding]['what'], ob.finding, json.dumps(r.get('cex'), default=repr)[:200]))
                         continue
                 h = hashlib.sha256(json.dumps([ob.name, sl, r.get('cex')], sort_keys=True, default=repr).encode()).hexdigest()[:10]
